@@ -814,21 +814,19 @@ func (vfs *MemFS) Rename(oldpath, newpath string) error {
 			return &os.LinkError{Op: op, Old: oldpath, New: newpath, Err: nErr}
 		}
 
-	case *fileNode:
-		if nChild == nil {
-			break
-		}
-
+	default:
+		// Files and symbolic links replace anything but a directory.
 		switch nc := nChild.(type) {
-		case *fileNode:
-			nc.delete()
-		default:
+		case nil:
+		case *dirNode:
 			err := error(avfs.ErrFileExists)
 			if vfs.OSType() == avfs.OsWindows {
 				err = avfs.ErrWinAccessDenied
 			}
 
 			return &os.LinkError{Op: op, Old: oldpath, New: newpath, Err: err}
+		default:
+			nc.delete()
 		}
 	}
 
